@@ -206,18 +206,19 @@ NEGATIVE = [
 
 # alias resolution, written from the property text: `alias.Func` reaches exactly the public function of that file; private and undefined
 # names, names of other files and names of the importing file itself are rejected behind an alias; an alias that is not imported is rejected
-_LIB1 = 'func Pub1() int {\n\treturn 1\n}\nfunc priv1() int {\n\treturn 2\n}\n'
-_LIB2 = 'func Pub2() int {\n\treturn 3\n}\nfunc priv2() int {\n\treturn 4\n}\n'
-_MAIN_HEAD = 'import (\n\tm "lib1.tsh"\n\tm2 "lib2.tsh"\n)\nfunc Own() int {\n\treturn 5\n}\nfunc own() int {\n\treturn 6\n}\n'
-_VALUES = {"Pub1": 1, "priv1": 2, "Pub2": 3, "priv2": 4, "Own": 5, "own": 6}
+_LIB1 = 'func Pub1() int {\n\treturn 1\n}\nfunc priv1() int {\n\treturn 2\n}\nfunc _und1() int {\n\treturn 7\n}\nfunc pUB1() int {\n\treturn 9\n}\n'
+_LIB2 = 'func Pub2() int {\n\treturn 3\n}\nfunc priv2() int {\n\treturn 4\n}\nfunc _Und2() int {\n\treturn 8\n}\n'
+_MAIN_HEAD = 'import (\n\tm "lib1.tsh"\n\tm2 "lib2.tsh"\n)\nfunc Own() int {\n\treturn 5\n}\nfunc own() int {\n\treturn 6\n}\nfunc _own() int {\n\treturn 10\n}\n'
+_VALUES = {"Pub1": 1, "priv1": 2, "Pub2": 3, "priv2": 4, "Own": 5, "own": 6, "_und1": 7, "_Und2": 8, "pUB1": 9, "_own": 10}
 
 
 def alias_matrix():
     """(name, files, expected stdout or None when the program has to be rejected)"""
     out = []
     for alias in ("m", "m2", "x", ""):
-        for name in ("Pub1", "priv1", "Pub2", "priv2", "Own", "own", "Nope"):
-            ok = (alias, name) in (("m", "Pub1"), ("m2", "Pub2"), ("", "Own"), ("", "own"))
+        # public = first character is an upper-case letter: `_und1`, `_Und2` (underscore first) and `pUB1` are private (round 6: C09-7)
+        for name in ("Pub1", "priv1", "Pub2", "priv2", "Own", "own", "Nope", "_und1", "_Und2", "pUB1", "_own"):
+            ok = (alias, name) in (("m", "Pub1"), ("m2", "Pub2"), ("", "Own"), ("", "own"), ("", "_own"))
             call = (alias + "." if alias else "") + name + "()"
             for form, body in (("expr", "print(%s)\n" % call), ("in-func", "func w9() int {\n\treturn %s\n}\nprint(w9())\n" % call),
                                ("stmt", "%s\nprint(0)\n" % call)):
